@@ -370,18 +370,30 @@ def gen_history(rng, n_ops, variants, pool):
     ops = []
     utc = L.UTC0_MS
     next_id = 0
-    apps = rng.sample(APPS, 4) + [2]
+    apps = [rng.choice([1, 2, 16, 5, 14])] + rng.sample(APPS, 3) + [2]
+    prov, live, types_of = set(), [], {}        # rough bookkeeping, only to bias the choices below
+
+    def valid_reg(app, perms, consumer):
+        return 1 <= app <= 21 and bool(perms) and (app in perms or app == 1 or (consumer and app in (4, 5)))
     for a in apps[:2]:
         ops.append(["regp", a, [a]])
         ops.append(["regc", a, [a, 1]])
+        if valid_reg(a, [a], False):
+            prov.add(a)
     while len(ops) < n_ops:
         x = rng.random()
-        app = rng.choice(apps)
+        app = rng.choice(apps[:2]) if rng.random() < 0.7 else rng.choice(apps)
         if x < 0.06:
             perms = rng.choice([[app], [app, 1], [], [rng.choice(APPS)], [2, 16]])
-            ops.append([rng.choice(["regp", "regc"]), app, perms])
+            kind = rng.choice(["regp", "regc"])
+            ops.append([kind, app, perms])
+            if kind == "regp" and valid_reg(app, perms, False):
+                prov.add(app)
         elif x < 0.10:
-            ops.append([rng.choice(["deregp", "deregc"]), app])
+            kind = rng.choice(["deregp", "deregc"])
+            ops.append([kind, app])
+            if kind == "deregp":
+                prov.discard(app)
         elif x < 0.42:
             now = L.now_its(utc)
             ts = now + rng.choice([0, 0, 0, -1000, -2000, -60000, 1000, 5000])
@@ -392,13 +404,21 @@ def gen_history(rng, n_ops, variants, pool):
                 ops.append(list(ops[-1]))
             else:
                 ops.append(["add", app, ts, loc, validity, obj])
-            next_id += 1
-        elif x < 0.50:
-            i = rng.choice([rng.randrange(0, next_id + 1), max(0, next_id - 1), next_id + 3])
-            ops.append(["upd", app, i, small_message(rng)])
+            if ops[-1][1] in prov:
+                types_of[next_id] = obj_type(ops[-1][5])
+                live.append(next_id)
+                next_id += 1
         elif x < 0.60:
-            i = rng.choice([rng.randrange(0, next_id + 1), max(0, next_id - 1), next_id + 3])
-            ops.append(["del", app, i])
+            i = rng.choice(live) if (live and rng.random() < 0.75) else rng.choice(
+                [rng.randrange(0, next_id + 1), next_id + 3])
+            if x < 0.50:
+                t = types_of.get(i)
+                ops.append(["upd", app, i, small_message(rng, t) if (t is not None and rng.random() < 0.75)
+                            else small_message(rng)])
+            else:
+                ops.append(["del", app, i])
+                if i in live and rng.random() < 0.9:
+                    live.remove(i)
         elif x < 0.80:
             types = rng.choice([[2], [1], [16], [2, 16], [1, 2, 16, 14, 3, 20], [14], [], [2, 99], [0]])
             prio = rng.choice([None, None, None, 0, 1, 255, 256, -1])
